@@ -102,6 +102,17 @@ def workers_list(pa, wk):
     return None
 
 
+def _is_proc_join(c):
+    """p.join() / p.join(timeout) on something that is not a string (`", ".join(xs)` is text, not a process)."""
+    if not (isinstance(c, ast.Call) and isinstance(c.func, ast.Attribute) and c.func.attr == "join"):
+        return False
+    r = c.func.value
+    if isinstance(r, (ast.Constant, ast.JoinedStr)) or (isinstance(r, ast.Attribute) and r.attr in ("sep", "linesep", "pathsep")) \
+            or dotted(c.func) in ("os.path.join", "str.join", "posixpath.join"):
+        return False
+    return True
+
+
 def _top_index(func, node):
     """Index of the top-level statement of func's body containing node."""
     for i, s in enumerate(func.body()):
@@ -824,7 +835,7 @@ def rule_rettable(ctx):
     start = None
     for i, s_ in enumerate(body):
         if isinstance(s_, ast.For) and isinstance(s_.iter, ast.Name) and s_.iter.id == wl and \
-                any(isinstance(c.func, ast.Attribute) and c.func.attr == "join" for c in calls_in(s_)):
+                any(_is_proc_join(c) for c in calls_in(s_)):
             start = i + 1
     if start is None:
         ctx.ob("rettable", pa, pa.node, "return table", "the tail of parallel_add (after the workers were joined) is identifiable", None,
@@ -1038,6 +1049,10 @@ class MergeTreeInterp:
             for x in list(it):
                 if isinstance(s.target, ast.Name):
                     env[s.target.id] = x
+                elif isinstance(s.target, (ast.Tuple, ast.List)) and all(isinstance(t, ast.Name) for t in s.target.elts) \
+                        and isinstance(x, (tuple, list)) and len(x) == len(s.target.elts):
+                    for t, xv in zip(s.target.elts, x):
+                        env[t.id] = xv
                 else:
                     raise MTUndecided("loop target")
                 r = self.block(s.body, env)
@@ -1234,8 +1249,34 @@ class MergeTreeInterp:
             if any(not isinstance(x, int) for x in a):
                 raise MTUndecided("range(%s)" % ", ".join(unparse(x) for x in e.args))
             return list(range(*a))
-        if d in ("list", "enumerate", "reversed", "zip"):
+        if d in ("list", "tuple", "enumerate", "reversed", "zip", "sorted") and not e.keywords:
+            a = [self.ev(x, env) for x in e.args]
+            if d != "sorted" and a and all(isinstance(x, (list, tuple)) for x in a):
+                if d == "list" and len(a) == 1:
+                    return list(a[0])
+                if d == "tuple" and len(a) == 1:
+                    return tuple(a[0])
+                if d == "reversed" and len(a) == 1:
+                    return list(reversed(a[0]))
+                if d == "zip":
+                    return [tuple(t) for t in zip(*a)]
+                if d == "enumerate" and len(a) == 1:
+                    return [(i, x) for i, x in enumerate(a[0])]
+            if d == "enumerate" and len(a) == 2 and isinstance(a[0], (list, tuple)) and isinstance(a[1], int):
+                return [(i, x) for i, x in enumerate(a[0], a[1])]
             raise MTUndecided("builtin %s" % d)
+        if d in ("min", "max", "abs", "int") and not e.keywords and e.args:
+            a = [self.ev(x, env) for x in e.args]
+            if all(isinstance(x, int) and not isinstance(x, bool) for x in a):
+                if d == "min":
+                    return min(a)
+                if d == "max":
+                    return max(a)
+                if len(a) == 1:
+                    return abs(a[0]) if d == "abs" else a[0]
+            if len(a) == 1 and isinstance(a[0], (list, tuple)) and a[0] and all(isinstance(x, int) for x in a[0]) and d in ("min", "max"):
+                return min(a[0]) if d == "min" else max(a[0])
+            return UNK
         if isinstance(e.func, ast.Attribute):
             recv = self.ev(e.func.value, env)
             m = e.func.attr
@@ -1403,7 +1444,7 @@ def rule_mergetree(ctx, nmax=None):
            "" if not fails else "; ".join(f[1] for f in fails[:3]))
     ctx.note("mergetree: %d worker counts interpreted, rounds needed e.g. %s" % (len(rounds_seen), {k: rounds_seen[k] for k in list(rounds_seen)[:9]}))
     # mergers are joined before survivors are chosen; failure of a merger is an error
-    joins = [n for n in walk_no_nested(pm.node) if isinstance(n, ast.Call) and isinstance(n.func, ast.Attribute) and n.func.attr == "join"]
+    joins = [n for n in walk_no_nested(pm.node) if _is_proc_join(n)]
     ctx.ob("mergetree", pm, joins[0] if joins else pm.node, "p.join() for every merger of a round", "a round's mergers are joined before the next round pairs their results", bool(joins))
 
 
@@ -1664,7 +1705,7 @@ def rule_dead(ctx):
             ctx.ob("dead-cleanup", pa, node, "%s.kill()" % logvar, "the log process is stopped too (a running non-daemon child keeps the interpreter from exiting)", okl,
                    "" if okl else "after a worker died the log process is left running: the error surfaces but the program never exits")
         # the cleanup precedes the unconditional joins
-        joins = [i for i, s in enumerate(pa.body()) if any(isinstance(c, ast.Call) and isinstance(c.func, ast.Attribute) and c.func.attr == "join" for c in ast.walk(s))
+        joins = [i for i, s in enumerate(pa.body()) if any(_is_proc_join(c) for c in ast.walk(s))
                  and not any(s is mon for _ in [0])]
         mi = _top_index(pa, mon)
         ctx.ob("dead-cleanup", pa, mon, "monitor before joins", "the monitor (and its cleanup) runs before the unconditional join() calls",
